@@ -141,11 +141,22 @@ fn sites(f: &Fault, tier: Tier) -> Vec<(&'static str, Vec<X>, X)> {
         ),
         ("map-value", vec![], map(vec![("a", int(1)), ("b", fe.clone())])),
     ];
+    // overridden operators that native code (not an instruction) invokes
+    v.push((
+        "meta-display",
+        vec![assign("od", meta_map(vec![(MK::Meta("display".into(), None), func(&[], vec![print(s("in @display")), fs.clone(), s("shown")]))]))],
+        interp(vec![hole(id("od"))]),
+    ));
+    v.push((
+        "meta-lt-under-sort",
+        vec![assign("ol_", meta_map(vec![(MK::Meta("<".into(), None), func(&["rhs"], vec![print(s("in @<")), fs.clone(), boolean(true)]))]))],
+        method(list(vec![id("ol_"), id("ol_")]), "sort", vec![]),
+    ));
     if tier == Tier::Thorough {
         v.push((
-            "meta-display",
-            vec![assign("od", meta_map(vec![(MK::Meta("display".into(), None), func(&[], vec![fs.clone(), s("shown")]))]))],
-            interp(vec![hole(id("od"))]),
+            "meta-display-in-list",
+            vec![assign("od", meta_map(vec![(MK::Meta("display".into(), None), func(&[], vec![print(s("in @display")), fs.clone(), s("shown")]))]))],
+            interp(vec![hole(list(vec![int(1), id("od")]))]),
         ));
         v.push((
             "keep-callback",
